@@ -342,3 +342,33 @@ def c16d(ctx):
     ok = bool(ap) and all(g.guarded(n, lambda at: at.op == '==' and 'tile_coord' in at.text and 'None' in at.text, False) for n, x in ap)
     ctx.check(ok, 'split_meta_tiles:skips-none', 'pattern entries without coordinate are skipped (no tile object is created for them)', sm,
               fail='split_meta_tiles creates tiles for pattern entries whose coordinate is None: they reach the cache store')
+
+
+BULK = [('mapproxy/cache/mbtiles.py', 'MBTilesCache'), ('mapproxy/cache/geopackage.py', 'GeopackageCache'),
+        ('mapproxy/cache/mbtiles.py', 'MBTilesLevelCache'), ('mapproxy/cache/geopackage.py', 'GeopackageLevelCache'),
+        ('mapproxy/cache/compact.py', 'BundleV1'), ('mapproxy/cache/compact.py', 'BundleV2'), ('mapproxy/cache/compact.py', 'CompactCacheBase')]
+
+
+@rule('C16.e', floor=7)
+def c16e(ctx):
+    """bulk loads skip tiles without coordinate (and tiles that already have data) before the coordinate is used"""
+    for rel, cname in BULK:
+        f = ctx.fn('%s:%s.load_tiles' % (rel, cname))
+        g = f.cfg
+        loops = [s for s in f.walk() if isinstance(s, ast.For) and unparse(s.iter) == 'tiles']
+        if not loops:
+            ctx.bad('%s.load_tiles:loop' % cname, 'no loop over the tiles', f)
+            continue
+        uses_all, ok = [], True
+        for lp in sorted(loops, key=order_key):
+            tv = unparse(lp.target)
+            body = ast.Module(body=lp.body, type_ignores=[])
+            uses = [x for x in ast.walk(body) if isinstance(x, ast.Attribute) and x.attr == 'coord' and unparse(x.value) == tv
+                    and not isinstance(getattr(x, '_parent', None), ast.Compare)]
+            uses += [x for x in ast.walk(body) if is_call(x, 'self._load_tile') and x.args and unparse(x.args[-1]) == tv]
+            none_atom = (lambda tv: lambda at: at.op == '==' and ('%s.coord' % tv) in at.text and 'None' in at.text)(tv)
+            ok = ok and all(g.guarded(g.node_for(x), none_atom, False) for x in uses)
+            uses_all += uses
+        ok = ok and bool(uses_all)
+        ctx.check(ok, '%s.load_tiles:none-skipped' % cname, 'inside the bulk loop the coordinate is only used for tiles whose coordinate is not None', f,
+                  fail='%s.load_tiles uses the coordinate of tiles that lie outside the grid (coord None): TypeError / wrong address in a bulk load' % cname)
